@@ -760,7 +760,7 @@ def run(ctx):
         ('peer-esc', lambda: run_peer_esc(ctx, 500 if ctx.quick else 20000)),
         ('orders', lambda: run_orders(ctx, 1500 if ctx.quick else 30000, 8 if ctx.quick else 2)),
         ('structured', lambda: run_structured(ctx, 800 if ctx.quick else 4000)),
-        ('patterns', lambda: run_patterns(ctx, 6 if ctx.quick else 7, 6 if ctx.quick else 7)),
+        ('patterns', lambda: run_patterns(ctx, 5 if ctx.quick else 7, 6 if ctx.quick else 7)),
         ('malformed', lambda: run_malformed(ctx, 5 if ctx.quick else 7)),
         ('malformed-structured', lambda: run_malformed_structured(ctx, 300 if ctx.quick else 5000)),
     ]
@@ -805,11 +805,21 @@ def replay(ctx, case):
         if ctx.model:
             mo = ctx.model.call('c17_ops', model_ops(start, ops))
             print('model         : code=%r message=%r enhanced_status_code=%r wire=%r setters refused=%r' % (U(mo[0]), U(mo[1]), tuple(U(x) for x in mo[2]), B(mo[3]), list(mo[4])))
-        if 'buf' in c or 'chunks' in c:
-            print('expected back : code=%r message=%r' % (c.get('code'), norm(c.get('text', ''))))
-            if out[0] == 0 and (out[1] != c.get('code') or out[2] != norm(c.get('text', ''))):
-                print('  -> read back %r, not what was sent [c17:roundtrip]' % (out[:3],))
-                rc = 1
+        if rc == 0 or 'chunks' in c:
+            # the round trip of the object as the CURRENT source builds it, a successor pipelined behind it
+            try:
+                code, msg, esc, wire, flags, esc_off = impl_order(start, ops)
+            except Exception:
+                return rc
+            if wire is not None and not esc_off:
+                back = impl_recv(b'', [wire + b'250 ok\r\n'])
+                print('sent %r, read back: %r' % (wire, back))
+                if back[0] == 4:
+                    print('  -> [c17:recv-raises-not-badreply]')
+                    rc = 1
+                elif back[:4] != (0, code, norm(msg), b'250 ok\r\n'):
+                    print('  -> not the code / text %r the object showed when it was sent [c17:roundtrip]' % ((code, norm(msg)),))
+                    rc = 1
         return rc
     if 'code' in c and 'text' in c:
         out = impl_ctor(c['code'], c['text'])
